@@ -139,6 +139,7 @@ def run(ctx):
     c01s.run_result_types(ctx, res, thorough)
     # names bound by import statements inside function bodies: implementation, model (DdsModel/Imports.lean), CPython
     c01s.run_imports(ctx, res, thorough)
+    c01s.run_imports_in_package_init(ctx, res, thorough)
     # the code lives in IPython cells
     c01s.run_notebook(ctx, res, thorough)
     # the order in which the calls of an expression are analysed
